@@ -1,0 +1,48 @@
+//go:build verif
+
+package verifhook
+
+import "sync/atomic"
+
+type (
+	PointFunc    func(site string, key any)
+	LockWaitFunc func(site string, key any, lock any)
+)
+
+var (
+	pointFn    atomic.Pointer[PointFunc]
+	lockWaitFn atomic.Pointer[LockWaitFunc]
+)
+
+// SetPoint installs (or, with nil, removes) the function called by Point.
+func SetPoint(f PointFunc) {
+	if f == nil {
+		pointFn.Store(nil)
+		return
+	}
+	pointFn.Store(&f)
+}
+
+// SetLockWait installs (or, with nil, removes) the function called by
+// LockWait.
+func SetLockWait(f LockWaitFunc) {
+	if f == nil {
+		lockWaitFn.Store(nil)
+		return
+	}
+	lockWaitFn.Store(&f)
+}
+
+// Point marks a place where a goroutine may be descheduled by a simulator.
+func Point(site string, key any) {
+	if f := pointFn.Load(); f != nil {
+		(*f)(site, key)
+	}
+}
+
+// LockWait marks the place immediately before a long-held lock is acquired.
+func LockWait(site string, key any, lock any) {
+	if f := lockWaitFn.Load(); f != nil {
+		(*f)(site, key, lock)
+	}
+}
